@@ -10618,7 +10618,7 @@ int cgi_array_general_write(
 
          /* save array information in memory */
         memset(array, 0, sizeof(cgns_array));
-        strcpy(array->data_type, cgi_adf_datatype(m_type));
+        strcpy(array->data_type, cgi_adf_datatype(s_type));
         strcpy(array->name, arrayname);
         array->data_dim = s_numdim;
         for (n = 0; n<s_numdim; n++) {
